@@ -44,12 +44,6 @@ Proof.
   intros P H. exact (proj2 (ristretto_decode_canonical pk P H)).
 Qed.
 
-Ltac split_and H :=
-  repeat match type of H with
-  | (_ && _)%bool = true => let H1 := fresh in let H2 := fresh in
-      apply andb_prop in H; destruct H as [H1 H2]; try split_and H1; try split_and H2
-  end.
-
 Lemma sr25519_prefix_refuted_all :
   (* VerifyDeprecated as found rejects a schnorrkel 0.1.1 signature Substrate accepts ... *)
   (exists pk msg sig, sr25519_verify_deprecated_ref pk msg sig = true
@@ -70,37 +64,23 @@ Lemma sr25519_prefix_refuted_all :
   /\ (exists pk msg sig, sr25519_verify_ref pk msg sig = false
                          /\ host_sr25519_verify_v2_prefix pk msg sig = true).
 Proof.
-  pose proof w1_true as W1. pose proof w2_true as W2. pose proof w3_true as W3.
-  pose proof w4_true as W4. pose proof w5_true as W5.
-  unfold w1 in W1. unfold w2 in W2. unfold w3 in W3. unfold w4 in W4. unfold w5 in W5.
-  apply andb_prop in W1. destruct W1 as [W1 W1c]. apply andb_prop in W1. destruct W1 as [W1a W1b].
-  apply andb_prop in W2. destruct W2 as [W2a W2b].
-  apply andb_prop in W3. destruct W3 as [W3a W3b].
-  apply andb_prop in W4. destruct W4 as [W4a W4b].
-  apply andb_prop in W5. destruct W5 as [W5a W5b].
-  apply negb_true_iff in W2a. apply negb_true_iff in W4b. apply negb_true_iff in W5b.
-  split; [exists old1_pk, old1_msg, old1_sig; split; [exact W1a|exact (verdict_eqb_eq _ _ W1c)]|].
-  split; [exists crust_pk, crust_msg, crust_sig_unmarked; split; [exact W2a|exact (verdict_eqb_eq _ _ W2b)]|].
-  split; [exists zero_pk, crust_msg, zero_sig; split; [exact W3a|exact (verdict_eqb_eq _ _ W3b)]|].
-  split; [exists crust_pk, old1_msg, crust_sig; split; [exact W4b|exact W4a]|].
+  split; [exists old1_pk, old1_msg, old1_sig; exact (conj w1a w1c)|].
+  split; [exists crust_pk, crust_msg, crust_sig_unmarked; exact (conj w2a w2b)|].
+  split; [exists zero_pk, crust_msg, zero_sig; exact (conj w3a w3b)|].
+  split; [exists crust_pk, old1_msg, crust_sig; exact (conj w4b w4a)|].
   split; [exact host_v1_prefix_ignores_signature|].
-  exists zero_pk, crust_msg, forged_zero_sig; split; [exact W5b|exact W5a].
+  exists zero_pk, crust_msg, forged_zero_sig; exact (conj w5b w5a).
 Qed.
 
 Lemma sr25519_nonvacuous_all :
   (exists pk msg sig, sr25519_verify_ref pk msg sig = true /\ sr25519_verify_signature pk sig msg = VOk)
   /\ (exists pk msg sig, sr_marked sig = false /\ sr25519_verify_deprecated_ref pk msg sig = true).
 Proof.
-  pose proof w0_true as W0. unfold w0 in W0. apply andb_prop in W0. destruct W0 as [W0a _].
-  pose proof w1_true as W1. unfold w1 in W1.
-  apply andb_prop in W1. destruct W1 as [W1 _]. apply andb_prop in W1. destruct W1 as [W1a W1b].
   split.
-  - exists crust_pk, crust_msg, crust_sig. split; [exact W0a|].
-    pose proof (sr25519_verify_agrees crust_pk crust_sig crust_msg) as A. rewrite W0a in A.
-    destruct (sr25519_verify_signature crust_pk crust_sig crust_msg); try discriminate. reflexivity.
-  - exists old1_pk, old1_msg, old1_sig. split; [|exact W1a].
-    destruct (sr_marked old1_sig) eqn:M; [|reflexivity].
-    rewrite (sr25519_deprecated_marked _ _ _ M) in W1a. apply negb_true_iff in W1b. congruence.
+  - exists crust_pk, crust_msg, crust_sig. split; [exact w0a|].
+    pose proof (sr25519_verify_agrees crust_pk crust_sig crust_msg) as A. rewrite w0a in A.
+    destruct (sr25519_verify_signature crust_pk crust_sig crust_msg); try discriminate A. reflexivity.
+  - exists old1_pk, old1_msg, old1_sig. exact (conj w1d w1a).
 Qed.
 
 Lemma merlin_fuel_all :
@@ -136,13 +116,9 @@ Proof.
     split; [exact (recover_v1_eq_v2 msg sig)|].
     split; [exact (recover_v2_implies_v1 msg sig)|].
     exact (host_recover_mutates_spec sig).
-  - pose proof v1w_true as W. unfold v1w in W.
-    apply andb_prop in W. destruct W as [W Wd]. apply andb_prop in W. destruct W as [W Wc].
-    apply andb_prop in W. destruct W as [Wa Wb].
-    destruct (substrate_recover_v1 v1w_msg v1w_sig) as [q|] eqn:E1; [|discriminate].
+  - pose proof v1w_v1 as V1.
+    destruct (substrate_recover_v1 v1w_msg v1w_sig) as [q|] eqn:E1; [|discriminate V1].
     exists v1w_msg, v1w_sig, q.
-    split; [exact Wa|]. split; [reflexivity|].
-    split.
-    + destruct (substrate_recover_v2 v1w_msg v1w_sig); [discriminate|reflexivity].
-    + destruct (host_recover_compressed v1w_msg v1w_sig); [discriminate|reflexivity].
+    split; [exact v1w_guard|]. split; [exact E1|]. split; [exact v1w_v2|].
+    rewrite (proj2 (host_recover_is_v2 v1w_msg v1w_sig)), v1w_v2. reflexivity.
 Qed.
